@@ -6,6 +6,7 @@ import (
 	"time"
 
 	"github.com/vipnode/vipnode/v2/internal/verifapi"
+	"github.com/vipnode/vipnode/v2/internal/verifmodels/faultstore"
 	"github.com/vipnode/vipnode/v2/internal/verifmodels/sigs"
 	"github.com/vipnode/vipnode/v2/pool/store"
 )
@@ -28,20 +29,30 @@ func VerifC08() {
 	p := New(db, nil)
 	now := verifapi.Time("now")
 	verifapi.SetNow(now)
-	max := verifapi.Choose("max", 3) // MaxRequestHosts 0 (unlimited), 1, 2
+	lean := verifapi.Param("lean", 0) == 1 // fault runs: only the peering of the candidates and the requested count vary
+	max := 0
+	if !lean {
+		max = verifapi.Choose("max", 3) // MaxRequestHosts 0 (unlimited), 1, 2
+	}
 	p.MaxRequestHosts = max
 	req := verifapi.NodeID(0)
 	db.SetNode(store.Node{ID: store.NodeID(req), LastSeen: now, Kind: "geth"})
 	n := verifapi.Param("hosts", 2)
 	// the requested kind: any, one of the two kinds the candidates have, or a kind the pool does not know
-	wantKind := []string{"", "geth", "parity", "nethermind"}[verifapi.Choose("kind", 4)]
+	wantKind := ""
+	if !lean {
+		wantKind = []string{"", "geth", "parity", "nethermind"}[verifapi.Choose("kind", 4)]
+	}
 	cands := make([]*verifCand, n)
 	var peered []string
 	for i := 0; i < n; i++ {
 		c := &verifCand{id: store.NodeID(verifapi.NodeID(1 + i))}
-		simple := verifapi.Param("simple", 0) == 1 // every candidate is a fresh, connected, unpeered host: only the kinds vary
+		simple := lean || verifapi.Param("simple", 0) == 1 // every candidate is a fresh, connected, unpeered host: only the kinds vary
 		c.isHost = simple || verifapi.Bool(fmt.Sprint("ishost", i))
-		c.kind = []string{"geth", "parity"}[verifapi.Choose(fmt.Sprint("kind", i), 2)]
+		c.kind = "geth"
+		if !lean {
+			c.kind = []string{"geth", "parity"}[verifapi.Choose(fmt.Sprint("kind", i), 2)]
+		}
 		// LastSeen relative to the activity window (now-120s): fresh, stale, or exactly on the edge
 		age := verifapi.Dur(fmt.Sprint("age", i))
 		verifapi.Assume(age >= 0)
@@ -54,7 +65,7 @@ func VerifC08() {
 		c.connected = simple || verifapi.Bool(fmt.Sprint("connected", i))
 		// (a legacy vipnode_client request re-registers the node first; whether the
 		// tracked peers survive that is a driver difference reported under C12)
-		c.peered = !simple && verifapi.Param("legacy_client", 0) == 0 && verifapi.Bool(fmt.Sprint("peered", i))
+		c.peered = (lean || !simple) && verifapi.Param("legacy_client", 0) == 0 && verifapi.Bool(fmt.Sprint("peered", i))
 		db.SetNode(store.Node{ID: c.id, IsHost: c.isHost, Kind: c.kind, LastSeen: now.Add(-age), URI: "enode://" + string(c.id) + "@192.0.2.1:30303"})
 		c.host = &VerifHost{Name: fmt.Sprint("h", i), Addr: "192.0.2.1:1", Behaviours: verifapi.Param("behaviours", 3)}
 		if c.connected {
@@ -72,6 +83,13 @@ func VerifC08() {
 	}
 	num := verifapi.Choose("num", 6) - 2 // -2..3
 	legacy := verifapi.Param("legacy_client", 0) == 1
+	// optionally one store call of the request fails (a storage fault): whatever the pool still
+	// returns must satisfy the statement, and an error must come without hosts
+	fs := faultstore.New(db)
+	if k := verifapi.Param("faultcalls", 0); k > 0 {
+		p.Store = fs
+		fs.Arm(verifapi.Choose("fault-at", k+1)-1, "")
+	}
 	var hosts []store.Node
 	var err error
 	nonce := VerifFreshNonce()
@@ -94,6 +112,8 @@ func VerifC08() {
 		}
 	}
 	replySeq := verifTick()
+	fs.Disarm()
+	faulted := fs.Failed != ""
 	verifapi.Reach("c08.returned")
 	want := num
 	if want < 0 {
@@ -151,10 +171,10 @@ func VerifC08() {
 		verifapi.Assert(len(hosts) == 0, "c08.error-means-no-hosts")
 		verifapi.Assert(ackedEligible == 0 || want == 0, "c08.error-only-when-no-host-could-be-provided")
 	}
-	if verifapi.Param("behaviours", 3) == 1 && eligible > 0 && want > 0 {
+	if verifapi.Param("behaviours", 3) == 1 && eligible > 0 && want > 0 && !faulted {
 		verifapi.Assert(err == nil, "c08.error-only-when-no-host-could-be-provided")
 	}
-	if allGood && activeOfKind == eligible && want > 0 {
+	if allGood && activeOfKind == eligible && want > 0 && !faulted {
 		exp := want
 		if eligible < exp {
 			exp = eligible
